@@ -245,14 +245,6 @@ class DataPacketReceiver(Elaboratable):
                     # Once we've moved on, this is no longer our first word.
                     m.d.ss += source.first.eq(0)
 
-                    # If we see unexpected control codes in our data packet, bail out.
-                    # Note that we'll only check for validity in positions we consider to have
-                    # valid data; as we always expect our data packet payload to be followed by
-                    # and "end of packet" set of control codes.
-                    with m.If((sink.ctrl & source.valid) != 0):
-                        m.d.comb += self.packet_bad.eq(1)
-                        m.next = "WAIT_FOR_HPSTART"
-
                     # Capture the current word and valid value, so we can refer to them in
                     # future states. This is necessary for CRC validation when we have a data payload
                     # that's not evenly divisible into words; see the instantiation of ``previous_word``.
@@ -268,6 +260,15 @@ class DataPacketReceiver(Elaboratable):
 
                     with m.Else():
                         m.next = "CHECK_CRC32"
+
+                    # If we see unexpected control codes in our data packet, bail out.
+                    # Note that we'll only check for validity in positions we consider to have
+                    # valid data; as we always expect our data packet payload to be followed by
+                    # and "end of packet" set of control codes.
+                    # (This comes last, so bailing out takes priority over moving on to our CRC check.)
+                    with m.If((sink.ctrl & source.valid) != 0):
+                        m.d.comb += self.packet_bad.eq(1)
+                        m.next = "WAIT_FOR_HPSTART"
 
 
             # CHECK_CRC32 -- we've received the end of our packet; and we're ready to decide if the
